@@ -159,11 +159,10 @@ func (k Keeper) WithdrawEarnedFees(ctx sdk.Context, owner, provider sdk.AccAddre
 
 		k.DeleteEarnedFees(ctx, provider)
 
-		if earnedFees.Equal(ownerEarnedFees) {
-			k.DeleteOwnerEarnedFees(ctx, owner)
-		} else {
-			k.SetOwnerEarnedFees(ctx, owner, ownerEarnedFees.Sub(earnedFees...))
-		}
+		// rewrite the owner's tally from scratch: SetOwnerEarnedFees only writes the denoms
+		// that are still present and would leave a fully withdrawn denom behind
+		k.DeleteOwnerEarnedFees(ctx, owner)
+		k.SetOwnerEarnedFees(ctx, owner, ownerEarnedFees.Sub(earnedFees...))
 
 		withdrawFees = earnedFees
 	} else {
